@@ -9,7 +9,12 @@ ERR = """#[derive(Debug, PartialEq)]
 pub struct MyErr { pub b: [u8; 16], pub n: usize, pub too_long: bool }
 pub static mut CALLS: u32 = 0;
 pub fn calls() -> u32 { unsafe { CALLS } }
-pub fn my_err(s: &str) -> MyErr {
+pub fn my_err(s: &str) -> MyErr { make_err(s) }
+pub fn not_found(s: &str) -> MyErr { make_err(s) }
+pub fn parse_error(s: &str) -> MyErr { make_err(s) }
+pub fn fallback(s: &str) -> MyErr { make_err(s) }
+pub fn from_str_err(s: &str) -> MyErr { make_err(s) }
+pub fn make_err(s: &str) -> MyErr {
     unsafe { CALLS += 1; }
     let sb = s.as_bytes();
     let mut b = [0u8; 16];
@@ -35,6 +40,8 @@ def pivot():
                       note="mixed case sensitivity + disabled", **kw))
     S.append(EnumSpec("Zero", [U("A", disabled=True)], note="zero enabled variants: every input is rejected", **kw))
     S.append(EnumSpec("Sa", [U("DarkBlack"), U("Io2")], serialize_all="SCREAMING_SNAKE_CASE", aci=True, note="serialize_all + case-insensitive", **kw))
+    S.append(EnumSpec("Units", [U("Micro", serialize=["\u00b5m"]), U("M", serialize=["m"]), U("Mm", serialize=["mm"])],
+                      note="the longest spelling in BYTES is non-ASCII (char count < byte length)", **kw))
     S.append(EnumSpec("Ws", [U("A", serialize=[" a "]), U("B", serialize=["b"])], note="spelling with surrounding whitespace (trimmed input must not match or be reported)", **kw))
     return S
 
@@ -126,6 +133,9 @@ def build(tier, seed):
             rnd.append(s)
     rnd = rnd[: (2 if tier == "quick" else 10)]
     specs = pivot() + rnd
+    # vary the NAME of the declared function: a generated helper or local with the same name must not capture it
+    for i, s in enumerate(specs):
+        s.parse_err_fn = ["my_err", "not_found", "parse_error", "fallback", "from_str_err"][i % 5]
     programs = [program(s, "p%03d" % i, tier, cap) for i, s in enumerate(specs)]
     return {
         "programs": programs,
